@@ -545,19 +545,19 @@ func explore(p *Prop, tier string, seed uint64) (*agg, *RunResult, *buildInfo) {
 				next += n
 				mu.Unlock()
 				for n > 0 {
-					spec := Spec{Prop: p.ID, Tier: tier, Seed: seed, First: first, Runs: n, MaxSteps: p.MaxSteps, Params: p.Params,
+					spec := Spec{Prop: p.ID, Tier: tier, Seed: seed, First: first, Runs: n, MaxSteps: p.MaxSteps, RunWallS: p.RunWallS, Params: p.Params,
 						WallS: int(time.Until(deadline).Seconds()) + 1, Known: known.sigs()}
 					if first == 0 {
 						spec.Samples = 3
 					}
-					br, err := runBatch(bi, p, spec, time.Until(deadline)+time.Duration(120)*time.Second)
+					br, err := runBatch(bi, p, spec, time.Until(deadline)+time.Duration(120+p.RunWallS)*time.Second)
 					if err != nil && (br == nil || br.Violation == nil || br.Violation.Violation == nil) {
 						// Runs are pure functions of (seed, run index, code): an infrastructure problem
 						// that does not recur when the same batch is run again in a fresh process is
 						// flakiness of the machinery (a rare real-thread race), not a verdict. Retry once;
 						// a problem that recurs is reported (exit 2).
 						fmt.Fprintf(os.Stderr, "vcheck: batch first=%d runs=%d of %s hit an infrastructure problem, retrying once: %v\n", first, n, p.ID, firstLine(err))
-						br, err = runBatch(bi, p, spec, time.Until(deadline)+time.Duration(240)*time.Second)
+						br, err = runBatch(bi, p, spec, time.Until(deadline)+time.Duration(240+p.RunWallS)*time.Second)
 						mu.Lock()
 						a.infraRetries++
 						mu.Unlock()
@@ -715,8 +715,8 @@ func replayOnce(bi *buildInfo, p *Prop, tier string, seed uint64, run int, choic
 	if choices == nil {
 		choices = []int{}
 	}
-	spec := Spec{Prop: p.ID, Tier: tier, Seed: seed, First: run, Runs: 1, Replay: choices, KeepLog: keepLog, MaxSteps: p.MaxSteps, Params: p.Params}
-	br, err := runBatch(bi, p, spec, 5*time.Minute)
+	spec := Spec{Prop: p.ID, Tier: tier, Seed: seed, First: run, Runs: 1, Replay: choices, KeepLog: keepLog, MaxSteps: p.MaxSteps, RunWallS: p.RunWallS, Params: p.Params}
+	br, err := runBatch(bi, p, spec, 5*time.Minute+time.Duration(p.RunWallS)*time.Second)
 	if err != nil && (br == nil || br.Violation == nil) {
 		return nil, err
 	}
